@@ -13,6 +13,9 @@ func applyAppend(skel *Skeleton, op Op, path *Path, prepend bool) error {
 	if len(op.Value) == 0 {
 		return fmt.Errorf("%w: APPEND/PREPEND requires Value", ErrInvalidOp)
 	}
+	if err := validateValue(op.Value); err != nil {
+		return err
+	}
 
 	cur, err := path.Resolve(skel)
 	if err != nil {
